@@ -17,9 +17,17 @@
   SF/Proofs/CborCtx … CborTermTop.lean (a simulation between parser states and ghost
   contexts of open containers).  Wall-clock time and real heap are runtime facts (partial by
   nature, DESIGN §10); UBJSON / JSON: mirror (fuel-instrumented) + correspondence + oracle.
+
+  JSON PARSER (namespace `SF.PropsJson.C03`): no panic (`Parse` from ANY state; `Write` from every
+  state satisfying the invariant `Inv`, which holds for a new parser and is preserved by every
+  `Write`, also after errors), no hang (2·len+2 loop iterations; `unquote` terminates),
+  truncation (every proper non-empty prefix of every grammatical JSON text other than a bare
+  number is an error, whole or chunked; a `finalize` that accepts means the parser is idle or
+  holds a complete top-level number).
 -/
 import SF.Proofs.CborNoPanic
 import SF.Proofs.CborTermTop
+import SF.Proofs.JsonParseTop
 namespace SF.Props.C03
 open SF SF.Cbor SF.Cbor.Parse
 
@@ -151,3 +159,70 @@ example : (Parse.parse {} [0xc0]).2 = some .tagUnsupported ∧ (Parse.parse {} [
   decide +kernel
 
 end SF.Props.C03
+
+/-! ## JSON parser (SF/Json/Parse.lean; proofs SF/Proofs/Json{Basic,Step,Loop,Shape,Run,Eqv,Peel*,Chunk,Grammar,Trunc,ParseTop}.lean) -/
+
+namespace SF.PropsJson.C03
+open SF SF.Json SF.Json.Parse SF.Json.Float SF.Json.ParseP SF.Json.Grammar
+
+/-- C03 (no panic) for JSON: `Parse` on ANY bytes from ANY parser state never panics … -/
+theorem parse_no_panic (p : P) (b : Bytes) : (parse p b).2 ≠ some .panic :=
+  SF.Json.ParseTop.parse_no_panic p b
+
+/-- … the invariant of reachable states holds for a new parser and survives every `Write`
+(also a failing one) … -/
+theorem inv_init (failAt : Option Nat) : Inv (init failAt) := SF.Json.ParseTop.inv_init failAt
+theorem inv_write (p : P) (b : Bytes) (h : Inv p) : Inv (write p b).1 := SF.Json.ParseTop.inv_write p b h
+
+/-- … and under it no sequence of `Write` calls (any chunking, continuing after errors) and no
+end-of-input check ever panics -/
+theorem writes_no_panic (cs : List Bytes) (p : P) (h : Inv p) (herr : p.err ≠ some .panic) :
+    Inv (cs.foldl (fun q c => (write q c).1) p) ∧
+    (cs.foldl (fun q c => (write q c).1) p).err ≠ some .panic ∧
+    ∀ c, (write (cs.foldl (fun q c => (write q c).1) p) c).2 ≠ some .panic :=
+  SF.Json.ParseTop.writes_no_panic cs p h herr
+
+theorem writeChunks_no_panic (cs : List Bytes) (p : P) (h : Inv p) (herr : p.err ≠ some .panic) :
+    (writeChunks p cs).2 ≠ some .panic :=
+  SF.Json.ParseTop.writeChunks_no_panic cs p h herr
+
+/-- C03 (no hang) for JSON: the loops finish within 2·|b|+2 iterations; `Parse` from ANY state
+and `Write` sequences from a new parser never run out of fuel; string unquoting terminates -/
+theorem feedUntil_linear (p : P) (h : Inv p) (herr : p.err ≠ some .outOfFuel) (b : Bytes) (f : Nat)
+    (hf : 2 * b.length + 2 ≤ f) : (feedUntil f p b).err ≠ some .outOfFuel :=
+  SF.Json.ParseTop.feedUntil_linear p h herr b f hf
+
+theorem parse_terminates (p : P) (b : Bytes) : (parse p b).2 ≠ some .outOfFuel :=
+  SF.Json.ParseTop.parse_terminates p b
+
+theorem writeChunks_terminates (cs : List Bytes) : (writeChunks {} cs).2 ≠ some .outOfFuel :=
+  SF.Json.ParseTop.writeChunks_terminates cs
+
+theorem unquote_terminates (inp : Bytes) : unquote inp ≠ .error .outOfFuel ∧ unquote inp ≠ .error .panic :=
+  SF.Json.ParseTop.unquote_terminates inp
+
+/-- C03 (truncation) for JSON: EVERY proper non-empty prefix of EVERY grammatical JSON text that
+is not a bare number (recorded reading: a number at the very end of the input is complete for
+this parser), optionally after white space, is an error for `Parse` … -/
+theorem json_truncated_is_error (v : J) (hok : v.ok = true) (hnn : v.isNum = false) (ws z : Bytes)
+    (hws : allWs ws = true) (hz : z <+: v.wire) (hne : z ≠ []) (hne2 : z ≠ v.wire) :
+    (parse {} (ws ++ z)).2 ≠ none :=
+  SF.Json.ParseTop.json_truncated_is_error v hok hnn ws z hws hz hne hne2
+
+/-- … and for `Write*` + end of input, however the prefix is chunked -/
+theorem json_truncated_is_error_chunks (v : J) (hok : v.ok = true) (hnn : v.isNum = false) (ws z : Bytes)
+    (hws : allWs ws = true) (hz : z <+: v.wire) (hne : z ≠ []) (hne2 : z ≠ v.wire)
+    (cs : List Bytes) (hcs : cs.flatten = ws ++ z) : (writeChunks {} cs).2 ≠ none :=
+  SF.Json.ParseTop.json_truncated_is_error_chunks v hok hnn ws z hws hz hne hne2 cs hcs
+
+/-- in state form: every reachable state is well-formed, and an accepting end-of-input check
+means the parser is idle or holds a complete top-level number -/
+theorem reachable_wf (failAt : Option Nat) (cs : List Bytes) :
+    ParseP.WF (cs.foldl (fun q c => (write q c).1) (init failAt)) :=
+  SF.Json.ParseTop.reachable_wf failAt cs
+
+theorem truncated_is_incomplete (p : P) (h : ParseP.WF p) (hcs : p.currentState ≠ .startState)
+    (hn : p.currentState ≠ .numberState) : (finalize p).2 = some .incomplete :=
+  SF.Json.ParseTop.truncated_is_incomplete p h hcs hn
+
+end SF.PropsJson.C03
